@@ -13,7 +13,9 @@
  *          worker that picked up the first block is stuck, the other workers compress everything that follows;
  *       2  round robin: a worker that has finished an item waits (at most ~2 ms) until another thread has started one,
  *          so consecutive blocks are compressed by different workers;
- *     the trace gains handoffs=<number of consecutive tickets that were started by different threads>.
+ *     the trace gains handoffs=<number of consecutive tickets that were started by different threads>, perturb=<the seed was
+ *     seen>, mode=, delays=<number of delays / waits actually applied>, started=<callbacks run> (the check treats a missing
+ *     trace or a perturbation that never fired as an infrastructure failure).
  * Without C02_PERTURB_SEED the callback is only traced.
  */
 #include "config.h"
@@ -35,7 +37,7 @@ static unsigned char *done_flag;
 static size_t n_sub, n_deq, lo_live, n_overtake;
 static uint64_t ord_hash = 14695981039346656037ULL;
 static int fifo_ok = 1, perturb, max_us, mode, first_ms = 40, first_done;
-static size_t n_started, n_handoff;
+static size_t n_started, n_handoff, n_delays;
 static pthread_t last_starter;
 static int have_starter;
 static uint64_t seed;
@@ -60,6 +62,7 @@ static void delay(uint64_t r)
 {
 	unsigned k = (unsigned)(r % 8);
 	if (k < 3) return;
+	__sync_fetch_and_add(&n_delays, 1);
 	if (k < 5) { sched_yield(); return; }
 	usleep((useconds_t)((r >> 8) % (uint64_t)(max_us + 1)));
 }
@@ -80,7 +83,7 @@ static int traced_worker(void *user, void *item)
 	first_done = 1;
 	pthread_mutex_unlock(&mtx);
 	if (perturb && mode == 1) {
-		if (was_first) usleep((useconds_t)first_ms * 1000);
+		if (was_first) { usleep((useconds_t)first_ms * 1000); __sync_fetch_and_add(&n_delays, 1); }
 	} else if (perturb) {
 		delay(mix(seed ^ (uint64_t)(t + 1) * 0x9e3779b97f4a7c15ULL));
 	}
@@ -94,6 +97,7 @@ static int traced_worker(void *user, void *item)
 			cur = n_started;
 			pthread_mutex_unlock(&mtx);
 			if (cur != my_start) break;
+			if (spins == 0) __sync_fetch_and_add(&n_delays, 1);
 			usleep(50);
 		}
 	} else if (perturb && mode != 1) {
@@ -148,8 +152,8 @@ static void dump(void)
 	if (!path) return;
 	f = fopen(path, "w");
 	if (!f) return;
-	fprintf(f, "submitted=%zu overtakes=%zu order=%016llx workers=%zu fifo=%d handoffs=%zu\n", n_sub, n_overtake,
-		(unsigned long long)ord_hash, nworkers, fifo_ok, n_handoff);
+	fprintf(f, "submitted=%zu overtakes=%zu order=%016llx workers=%zu fifo=%d handoffs=%zu perturb=%d mode=%d delays=%zu started=%zu\n", n_sub,
+		n_overtake, (unsigned long long)ord_hash, nworkers, fifo_ok, n_handoff, perturb, mode, n_delays, n_started);
 	fclose(f);
 }
 
